@@ -20,6 +20,7 @@ use crate::core::*;
 use crate::rtrnet::*;
 
 const KEY_STALL: &str = "C19/stall-after-failed-setup";
+const KEY_GONE: &str = "C19/listener-gone-after-failed-setup";
 
 #[derive(Serialize, Deserialize, Clone, Debug)]
 pub struct Conn {
@@ -163,6 +164,13 @@ fn evaluate(case: &Case, p: &Params, info: &mut CaseInfo) -> Verdict {
         );
         match (&first, &second) {
             (f, None) if as_expected(f) => {}
+            (Exchange::Io(e), _) if failed_before && e.contains("refused") => {
+                // nobody listens on the port any more; loopback connects in sequence never overflow a backlog
+                if !control_ok(t / 2) {
+                    return Verdict::Dropped("control_slow".into());
+                }
+                return Verdict::fail(KEY_GONE, format!("{} — the connection was refused: the listener no longer exists although the control listener answered within {:?}; an earlier connection on this listener had a failed setup", what, t / 2));
+            }
             (Exchange::Io(e), _) => return Verdict::Dropped(format!("client_io:{}", truncate(e, 40))),
             (Exchange::Timeout, Some(s)) if as_expected(s) => return Verdict::Dropped("late_answer".into()),
             (Exchange::Timeout, Some(Exchange::Timeout)) => {
@@ -320,6 +328,15 @@ fn evaluate_burst(case: &BurstCase, p: &Params, info: &mut CaseInfo) -> Verdict 
         let ok = if natural { ex == Exchange::Closed } else { matches!(ex, Exchange::Answered { error_code: None, .. }) };
         match ex {
             _ if ok => {}
+            Exchange::Io(e) if failing >= 1 && e.contains("refused") => {
+                if !control_ok(t / 2) {
+                    return Verdict::Dropped("control_slow".into());
+                }
+                return Verdict::fail(KEY_GONE, format!("{}; follower {} of {} was refused: the listener no longer exists although the control listener answered", what, k + 1, case.followers));
+            }
+            Exchange::Closed if !natural && failing >= 1 => {
+                return Verdict::fail("C19/good-connection-closed", format!("{}; follower {} of {} was closed without an answer although its setup was not failed", what, k + 1, case.followers));
+            }
             Exchange::Io(e) => return Verdict::Dropped(format!("client_io:{}", truncate(&e, 40))),
             Exchange::Timeout => {
                 if !control_ok(t / 2) {
